@@ -407,7 +407,7 @@ func checkC18(w *World, r *Report) {
 				return
 			}
 			n++
-			why, fresh := freshMap(st.Val, 0)
+			why, fresh := freshMapFor(st.Val, 0, fa)
 			if fresh {
 				r.ok("R18.1", ssaName(fn), "store RenderContext.context", w.posOf(in.Pos()), why, false)
 			} else {
